@@ -137,6 +137,7 @@ class Module:
         self.defs = {}           # net -> Expr over earlier nets (for evaluation), or ('bbout',)
         self.bbs = list(blackboxes)
         self.bb_insts = []
+        self.floating = []
         nets = list(self.inputs)
         ng = rng.randint(1, 7)
         for i in range(ng):
@@ -188,6 +189,11 @@ class Module:
                     dup = rng.choice(ops)
                     for _ in range(rng.randint(1, 3)):       # given 2, 3 or 4 times
                         ops.insert(rng.randrange(len(ops) + 1), dup)
+                if rng.random() < 0.06 and all(o.op == "id" for o in ops):
+                    # a floating wire: read here, declared, never driven (an undriven buffer for both parsers, K38)
+                    fl = f"fl{i}"
+                    self.floating.append(fl)
+                    ops[rng.randrange(len(ops))] = Expr("id", name=fl)
                 self.stmts.append(("gate", t, rng.choice([f"g_{i}", f"g_{i}", f"g_{i}", f"U{i}", f"_{i}_"]), net, ops))
                 self.defs[net] = ("gate", t, ops)
             nets.append(net)
@@ -195,16 +201,17 @@ class Module:
         self.outputs = rng.sample(cands, rng.randint(1, min(3, len(cands))))
         if rng.random() < 0.1:
             self.outputs.append(rng.choice(self.inputs))
-        self.wires = [n for n in cands if n not in self.outputs]
+        self.wires = [n for n in cands if n not in self.outputs] + list(self.floating)
 
     # ---- meaning
     def free_names(self):
-        return list(self.inputs) + [f"{inst}.{pin}" for inst, bb, pins in self.bb_insts for pin in sorted(bb.output_set)]
+        return list(self.inputs) + list(self.floating) + \
+            [f"{inst}.{pin}" for inst, bb, pins in self.bb_insts for pin in sorted(bb.output_set)]
 
     def evaluate(self, assign):
         """value of every net given inputs and blackbox output pins (by instance.pin)"""
         env = dict((k, v) for k, v in assign.items() if "." not in k or k.startswith("\\"))
-        for i in self.inputs:
+        for i in list(self.inputs) + list(self.floating):
             env[i] = assign[i]
         for net, d in self.defs.items():
             if isinstance(d, Expr):
